@@ -2899,10 +2899,24 @@ class SEVM:
         new_ex_true = None
         new_ex_false = None
 
-        if follow_true:
-            if target not in ex.pgm.valid_jumpdests():
+        if follow_true and target not in ex.pgm.valid_jumpdests():
+            if not follow_false:
                 raise InvalidJumpDestError(f"Invalid jump destination: 0x{target:X}")
 
+            # only the inputs that satisfy the condition halt here; the others fall through.
+            # the failing inputs get their own branch, which re-executes this JUMPI with the condition assumed
+            new_ex_invalid = self.create_branch(ex, cond_true, ex.pc)
+            new_ex_invalid.st.push(cond)
+            new_ex_invalid.st.push_any(target)
+            if is_symbolic_cond:
+                new_ex_invalid.jumpis[jid] = {
+                    True: visited[True] + 1,
+                    False: visited[False],
+                }
+            stack.push(new_ex_invalid)
+            follow_true = False
+
+        if follow_true:
             if follow_false:
                 new_ex_true = self.create_branch(ex, cond_true, target)
             else:
